@@ -444,8 +444,26 @@ def run(ck, m):
                 if got != want_ and wit is None:
                     verdict, wit = False, (N_, V_, R_, got)
         except (EvUnk, SyntaxError) as ex:
+            # the version test is not the canonical tuple comparison: decide it on concrete konsole versions instead (the parsed version, under any of
+            # the spellings below, is a tuple of integers; tuples compare as Python compares them)
             verdict = None
-            ck.expect(False, f"ITerm2Image.is_supported: support condition `{src[:120]}` not evaluable ({ex})")
+            src2 = " and ".join(f"({l_})" for l_ in L).replace("__raised__(ValueError)", "R").replace(NAME, "N")
+            base_ = f"{VER}.split('.')"
+            try:
+                e2 = ast.parse(src2, mode="eval").body
+                uses_r = any(isinstance(n_, ast.Name) and n_.id == "R" for n_ in ast.walk(e2))
+                verdict = True
+                for N_, v_, R_ in _it.product(("iterm2", "wezterm", "konsole", "xterm"), ((21, 12, 3), (22, 3, 9), (22, 4, 0), (22, 12, 1), (23, 8, 0), (24, 2, 1), (25, 3, 0)),
+                                              ((True, False) if uses_r else (False,))):
+                    envv = {"N": N_, "R": R_, f"map(int, {base_})": v_, f"tuple(map(int, {base_}))": v_, f"map(int, {base_}[:2])": v_[:2], f"tuple(map(int, {base_}[:2]))": v_[:2],
+                            f"map(int, {base_}[:3])": v_, f"tuple(map(int, {base_}[:3]))": v_, f"list(map(int, {base_}))": v_}
+                    got = bool(_aev(e2, envv))
+                    want_ = N_ in ("iterm2", "wezterm") or (N_ == "konsole" and v_ >= (22, 4, 0) and not R_)
+                    if got != want_ and wit is None:
+                        verdict, wit = False, (N_, "konsole version " + ".".join(map(str, v_)), R_, got)
+            except (EvUnk, SyntaxError) as ex2:
+                verdict = None
+                ck.expect(False, f"ITerm2Image.is_supported: support condition `{src[:120]}` not evaluable ({ex2})")
         if verdict is not None:
             ck.ob("R5", st, verdict, "iterm2 style is supported on iterm2, wezterm, or konsole >= 22.4.0; the condition found"
                   + (f" gives {wit[3]} for terminal={wit[0]}, version new enough={wit[1]}, parse failed={wit[2]}" if wit else " agrees"), stmt="ITerm2Image.is_supported: rule")
